@@ -2,6 +2,7 @@
 inverse/NonlinearSolve.py (PX on the real source, the REAL Objective's vjp/jvp closures through JX), the adjoint function
 space against the direct construction (JX), param_index_update (shared with C19)."""
 import math
+import time
 import traceback
 
 import numpy as onp
@@ -701,7 +702,12 @@ def sur_log(dispGrad, stateOld):
 
 
 def sur_exp(A):
-    """surrogate for jax.scipy.linalg.expm: second-order Taylor polynomial"""
+    """surrogate for jax.scipy.linalg.expm: first-order Taylor polynomial (Fv_new = (I + dEv) Fv_old stays bilinear in the increment and the old state)"""
+    return jnp.identity(3) + A
+
+
+def sur_exp2(A):
+    """second-order surrogate (thorough tier)"""
     return jnp.identity(3) + A + 0.5 * A @ A
 
 
@@ -710,7 +716,7 @@ class O4Material:
 
     def __init__(self, kind):
         self.kind = kind
-        if kind == 'visco':
+        if kind in ('visco', 'visco2'):
             from optimism.material import HyperViscoelastic as HV
             self.mod = HV
             with _quiet():
@@ -742,16 +748,17 @@ class O4Material:
         from . import c08
         st = contextlib.ExitStack()
         st.enter_context(c08.det_by_closed_form())
-        if self.kind == 'visco':
-            st.enter_context(c11_patched(self.mod, _compute_elastic_logarithmic_strain=sur_log, linalg=types.SimpleNamespace(expm=sur_exp)))
+        if self.kind in ('visco', 'visco2'):
+            st.enter_context(c11_patched(self.mod, _compute_elastic_logarithmic_strain=sur_log,
+                                         linalg=types.SimpleNamespace(expm=sur_exp if self.kind == 'visco' else sur_exp2)))
         if self.kind == 'j2':
-            from . import c09
-            st.enter_context(c09.stubbed())
+            st.enter_context(_enable_batched_root_contract().stubbed())
         return st
 
     STUB_NOTES = {
-        'visco': 'HyperViscoelastic traced with _compute_elastic_logarithmic_strain := Green strain of F(2I - Fv) and expm := I + A + A^2/2 (polynomial surrogates, on BOTH sides; the real '
+        'visco': 'HyperViscoelastic traced with _compute_elastic_logarithmic_strain := Green strain of F(2I - Fv) and expm := I + A (polynomial surrogates, on BOTH sides; the real '
                  'dt-dependent _compute_state_increment/_energy_density stay on the path); replay runs the unmodified material',
+        'visco2': 'as visco with expm := I + A + A^2/2',
         'j2': 'J2Plastic traced with ScalarRootFind.rtsafe_ replaced by its contract (c09: fresh root, hash-consed on everything the solver depends on, in bracket, |r| <= r_tol) on BOTH sides; '
               'find_root/custom_root and its tangent rule are the real code; replay runs the unmodified material',
         'neo': 'Neohookean (coupled version): log is an uninterpreted function, hash-consed across both sides',
@@ -901,49 +908,90 @@ def o4_box(inp, mat):
 
 
 def cramer_linear_solve(ctx, eqn, iv):
-    """custom_linear_solve (what jnp.linalg.solve and its transpose lower to) for 2 x 2 systems in closed form: the matrix is
-    read off the matvec jaxpr (applied to unit rows; checked on a third probe), x = adj(A) b / det A with det A recorded as a
-    symbolic denominator (assumed non-zero: the element is not degenerate).  jx.do_linear_solve's relational encoding
-    (fresh x with A x = b) gives helper and reference separate unknowns whenever their right-hand sides differ syntactically,
-    and equality then needs det A != 0 reasoning that z3 does not finish; closed forms keep both sides rational functions of the inputs"""
+    """custom_linear_solve (what jnp.linalg.solve and its transpose lower to) in closed form for systems that decouple into
+    blocks of size <= 2: the operator matrix is read off the matvec jaxpr by applying it to the unit arrays (matvec is linear by
+    the contract of custom_linear_solve), its block structure is the connectivity of the non-zero pattern, and each 2 x 2 block is
+    solved by Cramer's rule with its determinant recorded as a symbolic denominator (assumed non-zero: the element is not
+    degenerate).  jx.do_linear_solve's relational encoding (fresh x with A x = b) gives helper and reference separate unknowns
+    whenever their right-hand sides differ syntactically, and proving them equal needs det A != 0 reasoning that z3 does not
+    finish; closed forms keep both sides rational functions of the inputs"""
     cl = eqn.params['const_lengths']
     jp = eqn.params['jaxprs']
     nm = cl.matvec
     mv_consts = iv[:nm]
     bs = iv[nm + cl.vecmat + cl.solve + cl.transpose_solve:]
-    if len(bs) != 1 or bs[0].ndim < 2 or bs[0].shape[-2] != 2:
+    if len(bs) != 1 or bs[0].size > 12:
         return NotImplemented
     b = bs[0]
-
-    def mv(x):
-        return jx.eval_jaxpr(ctx, jp.matvec.jaxpr, jp.matvec.consts, *mv_consts, x)[0]
+    n = b.size
     cols = []
-    for i in range(2):
-        e = onp.zeros(b.shape)
-        e[..., i, :] = 1.0
-        cols.append(mv(jx.lift(e)))                    # A[..., :, i] replicated along the last axis
-    A = lambda r, c, idx: cols[c][idx + (r, 0)]
-    probe = onp.arange(1.0, b.size + 1.0).reshape(b.shape)
-    got = mv(jx.lift(probe))
-    out = onp.empty(b.shape, dtype=object)
-    for idx in (onp.ndindex(*b.shape[:-2]) if b.ndim > 2 else [()]):
-        a00, a01, a10, a11 = A(0, 0, idx), A(0, 1, idx), A(1, 0, idx), A(1, 1, idx)
-        for k in range(b.shape[-1]):
-            for r, (p, q) in enumerate(((a00, a01), (a10, a11))):
-                want = jx.s_add(jx.s_mul(p, probe[idx + (0, k)]), jx.s_mul(q, probe[idx + (1, k)]))
-                d = z3.simplify(sym.toz(want) - sym.toz(got[idx + (r, k)]))
-                if not (z3.is_rational_value(d) and d.numerator_as_long() == 0):
-                    raise jx.JXError('cramer_linear_solve: the matvec of this custom_linear_solve is not a column-wise 2x2 matrix product')
-        det = jx.s_sub(jx.s_mul(a00, a11), jx.s_mul(a01, a10))
-        if sym.isz(det):
-            ctx.denoms.append((ctx.guard(), det))
-        for k in range(b.shape[-1]):
-            b0, b1 = b[idx + (0, k)], b[idx + (1, k)]
-            n0 = jx.s_sub(jx.s_mul(a11, b0), jx.s_mul(a01, b1))
-            n1 = jx.s_sub(jx.s_mul(a00, b1), jx.s_mul(a10, b0))
-            out[idx + (0, k)] = sym.toz(n0) / sym.toz(det) if (sym.isz(n0) or sym.isz(det)) else n0 / det
-            out[idx + (1, k)] = sym.toz(n1) / sym.toz(det) if (sym.isz(n1) or sym.isz(det)) else n1 / det
-    return [out]
+    for j in range(n):
+        e = onp.zeros(n)
+        e[j] = 1.0
+        cols.append(jx.eval_jaxpr(ctx, jp.matvec.jaxpr, jp.matvec.consts, *mv_consts, jx.lift(e.reshape(b.shape)))[0].reshape(-1))
+    M = lambda i, j: cols[j][i]
+    nz = lambda t: sym.isz(t) or t != 0
+    # connected components of the pattern
+    comp = list(range(n))
+
+    def find(i):
+        while comp[i] != i:
+            i = comp[i]
+        return i
+    for i in range(n):
+        for j in range(n):
+            if nz(M(i, j)):
+                comp[find(i)] = find(j)
+    groups = {}
+    for i in range(n):
+        groups.setdefault(find(i), []).append(i)
+    bf = b.reshape(-1)
+    out = onp.empty(n, dtype=object)
+    div = lambda p, q: (sym.toz(p) / sym.toz(q)) if (sym.isz(p) or sym.isz(q)) else p / q
+    for g in groups.values():
+        if len(g) == 1:
+            i = g[0]
+            if sym.isz(M(i, i)):
+                ctx.denoms.append((ctx.guard(), M(i, i)))
+            out[i] = div(bf[i], M(i, i))
+        elif len(g) == 2:
+            i, j = g
+            a00, a01, a10, a11 = M(i, i), M(i, j), M(j, i), M(j, j)
+            det = jx.s_sub(jx.s_mul(a00, a11), jx.s_mul(a01, a10))
+            if sym.isz(det):
+                ctx.denoms.append((ctx.guard(), det))
+            out[i] = div(jx.s_sub(jx.s_mul(a11, bf[i]), jx.s_mul(a01, bf[j])), det)
+            out[j] = div(jx.s_sub(jx.s_mul(a00, bf[j]), jx.s_mul(a10, bf[i])), det)
+        else:
+            return NotImplemented
+    return [out.reshape(b.shape)]
+
+
+def _enable_batched_root_contract():
+    """c09's contract primitive of ScalarRootFind.rtsafe_ is scalar; the mechanics functions vmap the material update over the
+    (here: one) quadrature point.  Batching rule: bind on operands broadcast to the batch axis; JX side: evaluate per entry."""
+    from . import c09
+    from jax.interpreters import batching
+    if c09.contract_p in batching.primitive_batchers:
+        return c09
+
+    def rule(args, dims, site):
+        size = [a.shape[d] for a, d in zip(args, dims) if d is not None][0]
+        moved = [jnp.moveaxis(a, d, 0) if d is not None else jnp.broadcast_to(a, (size,) + jnp.shape(a)) for a, d in zip(args, dims)]
+        return c09.contract_p.bind(*moved, site=site), 0
+    batching.primitive_batchers[c09.contract_p] = rule
+    return c09
+
+
+def batched_root_contract(ctx, eqn, iv):
+    from . import c09
+    x = iv[0]
+    if x.shape == ():
+        return NotImplemented
+    out = onp.empty(x.shape, dtype=object)
+    for idx in onp.ndindex(*x.shape):
+        out[idx] = c09._contract_eval(ctx, eqn.params, [jx.lift(v[idx]) if v.shape == x.shape else v for v in iv])[()]
+    return out
 
 
 def prove_pair(h, setup, pname, fn, cap=60):
@@ -978,7 +1026,8 @@ def prove_pair(h, setup, pname, fn, cap=60):
         return
     ctx = jx.Ctx()
     ctx.hooks['custom_linear_solve'] = cramer_linear_solve
-    c = Case(h, traced, dict(zip(O4_NAMES, example)), sampler=lambda r: o4_example(mat, r), label=name, validate=2, jit=False, ctx=ctx)
+    ctx.hooks['c09_root_contract'] = batched_root_contract
+    c = Case(h, traced, dict(zip(O4_NAMES, example)), sampler=lambda r: o4_example(mat, r), label=name, validate=0 if mat.kind == 'j2' else 2, jit=False, ctx=ctx)      # the root-finder contract has no ground evaluation
     a, b = c.out
     fa = [t for l in jax.tree_util.tree_leaves(a) for t in sym.flat(l)]
     fb = [t for l in jax.tree_util.tree_leaves(b) for t in sym.flat(l)]
@@ -986,24 +1035,39 @@ def prove_pair(h, setup, pname, fn, cap=60):
     atom = Eq(fa, fb, name='helper_equals_reference')
     dt = c.inp['dt'][()]
     base = c.side(denoms=True) + [v_le(0.0, dt)]
-    st, _, _, _, _ = sym.solve([sym.tob(x) for x in base] + [atom.neg(0)], cap, order=('core', 'nlsat'))
-    if st == 'unsat':
-        return h.prove(name, base, atom, inputs=c.inp, concrete=concrete, cap=cap, order=('core', 'nlsat'))
+
+    def pins_of(vals, free=()):
+        out = []
+        for nm, val in zip(O4_NAMES, vals):
+            if nm not in free:
+                out += [sym.v_eq(v, float(x)) for v, x in zip(sym.flat(c.inp[nm]), onp.asarray(val).ravel())]
+        return out
+    # vacuity twin: the assumptions (non-zero denominators, dt >= 0) hold at the example point — a ground witness, instant for the solver
+    t0 = time.time()
+    vac = sym.solve([sym.tob(x) for x in base + pins_of(example)], 20, order=('core', 'nlsat'))[0]
+    vac_att = ('vacuity_at_example_point', vac, round(time.time() - t0, 3))
+
+    def finish(rec):
+        if rec is not None:
+            rec['attempts'].insert(0, vac_att)
+            rec['nonvacuous'] = {'sat': True, 'unsat': False}.get(vac)
+            if vac == 'unsat':
+                rec['status'] = 'vacuous'
+        return rec
+    rec = finish(h.prove(name, base, atom, inputs=c.inp, concrete=concrete, cap=cap, order=('nlsat', 'core'), check_vacuity=False))
+    if rec['status'] in ('discharged', 'violated', 'vacuous'):
+        return rec
+    st = rec['status']
+    h.records.remove(rec)            # undecided on the all-input query (unknown, or a model that does not replay): search on slices
     # counterexample search on slices
     for k in range(4):
-        pin_vals = o4_example(mat, onp.random.default_rng(h.seed + 100 + k))
-        pins = []
-        for nm, val in zip(O4_NAMES, pin_vals):
-            if nm in ('dt', 'av', 'vx'):
-                continue
-            for v, x in zip(sym.flat(c.inp[nm]), onp.asarray(val).ravel()):
-                pins.append(sym.v_eq(v, float(x)))
-        sliced = base + pins + o4_box(c.inp, mat)
+        sliced = base + pins_of(o4_example(mat, onp.random.default_rng(h.seed + 100 + k)), free=('dt', 'av', 'vx')) + o4_box(c.inp, mat)
         st2, _, _, _, _ = sym.solve([sym.tob(x) for x in sliced] + [atom.neg(1e-5)], 20, order=('nlsat', 'core'))
         if st2 == 'sat':
-            return h.prove(name, sliced, atom, inputs=c.inp, concrete=concrete, cap=20, order=('nlsat', 'core'),
-                           note='the all-input query returned %s; counterexample found on slice %d (X, U, iv, Ubc pinned to a seeded sample)' % (st, k))
-    return h.prove(name, base, atom, inputs=c.inp, concrete=concrete, cap=cap, order=('core', 'nlsat'))
+            return finish(h.prove(name, sliced, atom, inputs=c.inp, concrete=concrete, cap=20, order=('nlsat', 'core'), check_vacuity=False,
+                                  note='the all-input query returned %s; counterexample found on slice %d (X, U, iv, Ubc pinned to a seeded sample)' % (st, k)))
+    h.records.append(rec)
+    return rec
 
 
 def _o4_meta(h, mat):
